@@ -58,6 +58,13 @@ StringOK(d, h) == /\ h >= 0 /\ h + 4 <= Len(d)
                   /\ U32(d, h) >= 0 /\ h + 4 + U32(d, h) <= Len(d)
                   /\ Utf8(d, h + 4, h + 4 + U32(d, h))
 
+\* ---- the data section is a sequence of length-prefixed strings; a string operand addresses the start of one -----
+RECURSIVE DataEntries(_, _)
+DataEntries(d, o) ==     \* entry starts from offset o on; -1 marks a tail that is not a complete entry
+  IF o = Len(d) THEN {}
+  ELSE IF o + 4 > Len(d) \/ U32(d, o) < 0 \/ o + 4 + U32(d, o) > Len(d) THEN {-1}
+  ELSE {o} \cup DataEntries(d, o + 4 + U32(d, o))
+
 VARIABLES pi, pos, starts, jumps, bad, lastop,
           clos,     \* Closure instructions seen: [at, h (label handle)]
           regs,     \* RegisterUpvalue instructions: [at, clo (the Closure instruction they complete), idx, loc]
@@ -76,7 +83,8 @@ Local(op, bc, o) ==
     [] op \in {"SetGlobalVar", "ReadGlobalVar"} ->
          IF u < 0 \/ u >= P.nids THEN {Problem("global-index-out-of-range", o)} ELSE {}
     [] op \in {"StringLiteral", "NativeFunctionPointer"} ->
-         IF StringOK(P.data, u) THEN {} ELSE {Problem("string-operand-not-a-valid-string", o)}
+         (IF StringOK(P.data, u) THEN {} ELSE {Problem("string-operand-not-a-valid-string", o)})
+         \cup (IF u \in DataEntries(P.data, 0) THEN {} ELSE {Problem("string-operand-not-at-the-start-of-a-data-entry", o)})
     [] op \in {"FunctionPointer", "Closure"} ->
          IF \E j \in 1..Len(P.labels) : P.labels[j].h = Handle(bc, o + 1) THEN {} ELSE {Problem("function-label-missing", o)}
     [] op \in {"BeginForEach", "ForEach"} ->
@@ -110,6 +118,7 @@ Final ==
   \cup {Problem("trace-key-not-an-instruction-start", k) : k \in {P.trace[j] : j \in 1..Len(P.trace)} \ starts}
   \cup {Problem("fallible-instruction-without-trace", s) : s \in {s \in starts : Name(bc[s + 1]) \notin Infallible} \ {P.trace[j] : j \in 1..Len(P.trace)}}
   \cup UpvalueProblems
+  \cup (IF -1 \in DataEntries(P.data, 0) THEN {Problem("data-section-is-not-a-sequence-of-strings", 0)} ELSE {})
   \cup (IF lastop = "Exit" THEN {} ELSE {Problem("does-not-end-with-exit", Len(bc))})
   \cup (IF P.nids = P.nnames THEN {} ELSE {Problem("variable-tables-differ-in-size", 0)})
   \cup {Problem("variable-id-without-name-or-wrong-back-reference", P.vars[j].id) :
